@@ -39,6 +39,25 @@ theorem frame_indifferent (eig : Sym3 ℝ → P3 ℝ) (Q : Matrix (Fin 3) (Fin 3
   intro S _
   simp only [Function.comp, roundtrip, heig]
 
+/-- **frame_indifferent** through the quadrature average: the tube stores one tensor per
+quadrature point, `tube_log_reliability` averages the stored components over the quadrature
+points of an element (`meanStored`) before anything else.  Rotating every quadrature-point tensor
+by the same `Q` leaves every model's element log-reliabilities unchanged. -/
+theorem frame_indifferent_quadrature (eig : Sym3 ℝ → P3 ℝ) (Q : Matrix (Fin 3) (Fin 3) ℝ)
+    (heig : ∀ S, eig (rotate Q S) = eig S)
+    (mdl : Model) (cares : Bool) (tol tolg tot : ℝ) (g : Grid ℝ) (par : Par ℝ) (V : ℝ)
+    (ts : List ℝ) (Ss : List (List (Sym3 ℝ))) :
+    elemLog eig mdl cares tol tolg tot g par V ts
+        (Ss.map fun qs => meanStored ((qs.map (rotate Q)).map storedOf))
+      = elemLog eig mdl cares tol tolg tot g par V ts
+        (Ss.map fun qs => meanStored (qs.map storedOf)) := by
+  unfold elemLog
+  congr 1
+  rw [List.map_map, List.map_map]
+  apply List.map_congr_left
+  intro qs _
+  simp only [Function.comp, meanStored_storedOf, meanSym_rotate, roundtrip, heig]
+
 /-- **eigvalsh_contract** (the hypothesis of `frame_indifferent`, discharged): every `eig` that is
 a function of the characteristic polynomial of the tensor — in particular the sorted eigenvalues —
 is invariant under `S ↦ Q S Qᵀ` for orthogonal `Q`. -/
@@ -208,6 +227,37 @@ theorem pia_uniaxial (cares : Bool) (tol tolg tot : ℝ) (g : Grid ℝ)
   rw [hk, Real.div_rpow (hs σ hσ).le hs0.le, Real.rpow_neg hs0.le]
   ring
 
+/-- **batdorf_uniaxial** [stretch].  For all six Batdorf models, with `k̄` normalised on the same
+grid (`kbar`), a uniaxial tension `σ_t ≥ 0` along the polar axis of the orientation grid (principal
+triple `(σ_t, 0, 0)` paired with `l = cos A`), all times zero, gives exactly the uniaxial Weibull
+law `-V k σ^m` per time step — for every grid built from angle pairs with `cos A, sin A ≥ 0` whose
+`k̄`-sum is not 0.  (Along the other two axes the law holds only up to the quadrature rule; the
+harness asserts it there within the quadrature accuracy.) -/
+theorem batdorf_uniaxial (bm : BModel) {nu cbar m k V da db : ℝ}
+    (pairs : List (ℝ × ℝ)) (hm : 0 < m)
+    (hcos : ∀ ab ∈ pairs, 0 ≤ Real.cos ab.1) (hsin : ∀ ab ∈ pairs, 0 ≤ Real.sin ab.1)
+    (hda : 0 ≤ da) (hdb : 0 ≤ db) (hnu : nu ≠ 2) (hcb : cbar ≠ 0)
+    (hI : kbarI bm nu cbar m da db (pairs.map fun ab => nodeOf ab.1 ab.2) ≠ 0)
+    (td : TD ℝ) (ts : List ℝ) (hz : allZero ts = true) (sig : List ℝ) (hs : ∀ σ ∈ sig, 0 ≤ σ) :
+    batElem bm nu cbar m k V da db (pairs.map fun ab => nodeOf ab.1 ab.2) td ts (sig.map polar)
+      = sig.map fun σ => -V * (k * σ ^ m) := by
+  simp only [batElem, elemGen, hz, if_true, List.map_map]
+  apply List.map_congr_left
+  intro σ hσ
+  exact batPost_polar bm pairs (hs σ hσ) hm hcos hsin hda hdb hnu hcb hI
+
+/-- **F28 (pinned commit).** `MTSModelPennyShapedFlaw.calculate_kbar` as coded at the pinned commit
+normalised with `sin²2A/(2-ν²)` (`kbarFPinnedMtsP`, `kbarPinnedMtsP`) where the model's own
+equivalent stress implies `sin²2A/(2-ν)²`.  Witness: one orientation node at `A = π/4`, `ν = 0`,
+unit increments — a uniaxial tension along the polar axis does **not** give `-V k σ^m`. -/
+theorem pinned_mtsP_defect {cbar m k V σ : ℝ} (hcb : cbar ≠ 0) (hm : 0 < m) (hk : 0 < k)
+    (hV : 0 < V) (hσ : 0 < σ) :
+    batPost (kbarPinnedMtsP 0 m 1 1 ([(Real.pi / 4, (0 : ℝ))].map fun ab => nodeOf ab.1 ab.2))
+        m k V 1 1 ([(Real.pi / 4, (0 : ℝ))].map fun ab => nodeOf ab.1 ab.2)
+        (fun nd => sigEof .mtsP 0 cbar nd (polar σ))
+      ≠ -V * (k * σ ^ m) :=
+  pinned_mtsP_witness hcb hm hk hV hσ
+
 /-- **aggregation.** For any (ragged) panel sizes and multipliers: the tube value is the sum over
 all element entries (for `n ≥ 1` time rows), panel = Σ multiplier·tube over the panel's own tubes,
 overall = Σ panel = Σ over all tubes of the receiver; `exp` turns the sums into products:
@@ -247,7 +297,13 @@ example : removeB (0 : ℝ) ⟨-4, 0, 1⟩ = true ∧ removeB (0 : ℝ) ⟨-2, 0
   constructor <;>
     simp only [removeB, min3, max3, minNP_eq, maxNP_eq, absK_eq] <;> norm_num
 
-/-- a compressive state, a uniaxial state -/
+/-- the `k̄`-sum hypothesis of `batdorf_uniaxial` is satisfiable (one node at `A = π/4`) -/
+example : kbarI .cseG 0 1 2 1 1 ([(Real.pi / 4, 0)].map fun ab => nodeOf ab.1 ab.2) ≠ 0 := by
+  simp only [kbarI, List.map_cons, List.map_nil, sumL, nodeOf, kbarF, cos_def, sin_def,
+    Real.cos_pi_div_four, Real.sin_pi_div_four]
+  positivity
+
+/-- a compressive state -/
 example : (⟨-3, -1, 0⟩ : P3 ℝ).nonpos := ⟨by norm_num, by norm_num, le_rfl⟩
 
 /-- rotation about the third axis by 90° is orthogonal and moves `xx` to `yy` -/
